@@ -362,6 +362,17 @@ func extractPlan(f *ast.File, ctor string) (*insPlan, error) {
 			}
 			return nil, fmt.Errorf("%s: unrecognised assignment in ProcessRequest", ctor)
 		case *ast.IfStmt:
+			// validate-before-append guard: `if err := check…(req fields…); err != nil { return 0, res, err }`
+			// — rejects the request with the shared columns handed back unchanged (nothing appended yet)
+			if v.Init != nil {
+				be, ok := v.Cond.(*ast.BinaryExpr)
+				ret, ok2 := v.Body.List[len(v.Body.List)-1].(*ast.ReturnStmt)
+				if ok && ok2 && be.Op == token.NEQ && selPath(be.Y) == "nil" && len(v.Body.List) == 1 &&
+					len(ret.Results) == 3 && selPath(ret.Results[1]) == resVar && acqVar == "" {
+					continue
+				}
+				return nil, fmt.Errorf("%s: unrecognised guarded if in ProcessRequest", ctor)
+			}
 			// if !ok { ...; return 0, nil, err }
 			ue, ok := v.Cond.(*ast.UnaryExpr)
 			if !ok || ue.Op != token.NOT || selPath(ue.X) != okVar || okVar == "" {
